@@ -402,6 +402,8 @@ def contains(I, container, item):
     if isinstance(container, VDict):
         return z3.Or([eq(item, lit(k)) for k in container.items] + [z3.BoolVal(False)])
     if isinstance(container, VMap):
+        if isinstance(item, VOpt) and container.kty.name != 'opt':
+            return z3.And(z3.Not(item.none), z3.Select(container.has, unwrap(container.kty, item.val)))
         return z3.Select(container.has, unwrap(container.kty, item))
     if isinstance(container, VSeq):
         used('list.__contains__')
@@ -646,6 +648,11 @@ def get_item(I, obj, idx):
         raise Raised(VExc(KeyError, [idx]))
     if isinstance(obj, VMap):
         used('dict.__getitem__')
+        if isinstance(idx, VOpt) and obj.kty.name != 'opt':
+            # a maybe-None key into a map whose keys are never None
+            if I.spec_mode == 0 and I.decide(idx.none, 'none-key'):
+                raise Raised(VExc(KeyError, [NONE]))
+            idx = idx.val      # (in a spec the clause guards `key in map` first)
         kt = unwrap(obj.kty, idx)
         if I.spec_mode == 0:
             if not I.decide(z3.Select(obj.has, kt), 'key-present'):
